@@ -1,6 +1,7 @@
 CONSTANTS NthYears = {2000, 2001, 2020, 2023}
           Days <- QuickDays
           GenDays <- QuickGenDays
+          GenFams = {"gmon", "gnth", "gnum", "gnumb", "gnp", "gper", "gfmt"}
 INIT Init
 NEXT Next
 INVARIANT MonthLaws
